@@ -33,6 +33,7 @@ import (
 	acracensor "github.com/cossacklabs/acra/acra-censor"
 	"github.com/cossacklabs/acra/decryptor/base"
 	base_mysql "github.com/cossacklabs/acra/decryptor/mysql/base"
+	encryptor "github.com/cossacklabs/acra/encryptor/base"
 	"github.com/cossacklabs/acra/encryptor/mysql"
 	"github.com/cossacklabs/acra/keystore/filesystem"
 	"github.com/cossacklabs/acra/logging"
@@ -407,6 +408,14 @@ func (handler *Handler) ProxyClientConnection(ctx context.Context, errCh chan<- 
 						Errorln("Can't write response with error to client")
 				}
 				continue
+			}
+
+			if cmd == CommandStatementPrepare {
+				// column settings collected for the placeholders of an earlier prepared statement
+				// must not be applied to the parameter definitions of this one
+				if clientSession := base.ClientSessionFromContext(ctx); clientSession != nil {
+					encryptor.DeletePlaceholderSettingsFromClientSession(clientSession)
+				}
 			}
 
 			queryObj := mysql.NewOnQueryObjectFromQuery(query, handler.parser)
